@@ -7,24 +7,48 @@ import sys
 
 sys.path.insert(0, sys.argv[1])
 from stepcode.AggregationDataTypes import ARRAY, LIST, BAG, SET  # noqa: E402
-from stepcode.SimpleDataTypes import INTEGER, REAL  # noqa: E402
+from stepcode.SimpleDataTypes import INTEGER, REAL, STRING  # noqa: E402
 
 BAD = 99
 
 
-def mk(c):
+def mk(c, T=INTEGER):
     hi = None if c["unb"] else c["hi"]
     if c["kind"] == "ARRAY":
-        return ARRAY(c["lo"], hi, INTEGER, UNIQUE=c["uniq"], OPTIONAL=c["opt"])
+        return ARRAY(c["lo"], hi, T, UNIQUE=c["uniq"], OPTIONAL=c["opt"])
     if c["kind"] == "LIST":
-        return LIST(c["lo"], hi, INTEGER, UNIQUE=c["uniq"])
+        return LIST(c["lo"], hi, T, UNIQUE=c["uniq"])
     if c["kind"] == "BAG":
-        return BAG(c["lo"], hi, INTEGER)
-    return SET(c["lo"], hi, INTEGER)
+        return BAG(c["lo"], hi, T)
+    return SET(c["lo"], hi, T)
 
 
-def val(v):
-    return REAL(1.5) if v == BAD else INTEGER(v)
+BASE = {"INTEGER": INTEGER, "REAL": REAL, "STRING": STRING}
+
+
+def conc(base, text):
+    return INTEGER(int(text)) if base == "INTEGER" else REAL(float(text)) if base == "REAL" else STRING(text)
+
+
+def val(v, base="INTEGER", concrete=None):
+    """abstract value -> element of the base type (the ill-typed value is of another type)"""
+    if v == BAD:
+        return REAL(1.5) if base == "INTEGER" else INTEGER(5)
+    if concrete is None:
+        return INTEGER(v)
+    return conc(base, concrete[v - 1])
+
+
+def unval(r, base, concrete):
+    """element read from the container -> abstract value (0 = nothing, -1 = not a value of the pool)"""
+    if r is None:
+        return 0
+    if concrete is None:
+        return int(r)
+    for k, t in enumerate(concrete):
+        if conc(base, t) == r and type(conc(base, t)) == type(r):
+            return k + 1
+    return -1
 
 
 def q(f):
@@ -50,19 +74,20 @@ def main():
     for line in open(sys.argv[2]):
         sc = json.loads(line)
         c = sc["cfg"]
-        a = mk(c)
+        base, concrete = sc.get("base", "INTEGER"), sc.get("concrete")
+        a = mk(c, BASE[base])
         out.write(json.dumps({"e": "new", "kind": c["kind"], "lo": c["lo"], "hi": c["hi"], "unb": c["unb"],
                               "uniq": c["uniq"], "opt": c["opt"]}) + "\n")
         for o in sc["ops"]:
             ev = {"e": o["op"], "i": o["i"], "v": o["v"], "val": 0, "exc": ""}
             try:
                 if o["op"] == "set":
-                    a[o["i"]] = val(o["v"])
+                    a[o["i"]] = val(o["v"], base, concrete)
                 elif o["op"] == "get":
                     r = a[o["i"]]
-                    ev["val"] = 0 if r is None else int(r)
+                    ev["val"] = unval(r, base, concrete)
                 else:
-                    a.add(val(o["v"]))
+                    a.add(val(o["v"], base, concrete))
                 ev["acc"] = True
             except Exception as e:
                 ev["acc"] = False
